@@ -338,7 +338,7 @@ def run(ck):
                 why = 'guarded arm' if arm.get('guard') is not None else '%d format sites' % len(mine)
                 if okp:
                     st = mine[0]
-                    okp = len(st['pieces']) == 1 and st['pieces'][0][0] == 'arg' and st['pieces'][0][2] is None and len(st['args'] or []) == 1 and st['args'][0][0] == 'new_display'
+                    okp = len(st['pieces']) == 1 and st['pieces'][0][0] == 'arg' and st['pieces'][0][2] is None and st['pieces'][0][3] is None and len(st['args'] or []) == 1 and st['args'][0][0] == 'new_display'
                     why = 'template %r' % (st['pieces'],)
                     if okp and vs != ['Bool']:
                         a0 = H.strip_refs(st['args'][0][1])
